@@ -19,6 +19,11 @@ type RecSpec struct {
 	Tags   int   `json:"tags"` // number of tag entries
 	Fields int   `json:"fld"`  // number of field entries
 	Fill   int   `json:"fill"` // 0 repetitive filler, 1 pseudo-random filler
+	// unusual but legal shapes
+	NilFields bool `json:"nil_fields,omitempty"` // Fields == nil (Write guards it: encodes like "no fields")
+	NoCat     bool `json:"no_cat,omitempty"`     // empty Category
+	Line0     bool `json:"line0,omitempty"`      // Line == 0
+	LongTag   int  `json:"long_tag,omitempty"`   // one tag whose key has this many bytes and whose value twice as many
 }
 
 func filler(id, n, kind int) string {
@@ -40,6 +45,8 @@ func filler(id, n, kind int) string {
 	return string(b)
 }
 
+// Build makes the record.  Oid is unique per id, so two records of a case never share an
+// encoding even when Line, Content, Category and Time are all empty/zero.
 func (s RecSpec) Build() *pack.LogSinkPack {
 	p := pack.NewLogSinkPack()
 	p.Time = s.Time
@@ -48,14 +55,24 @@ func (s RecSpec) Build() *pack.LogSinkPack {
 	if s.ID%5 == 0 {
 		p.Okind = int32(s.ID)
 	}
-	p.Category = "cat" + strconv.Itoa(s.ID%3)
-	p.Line = int64(s.ID)
+	if !s.NoCat {
+		p.Category = "cat" + strconv.Itoa(s.ID%3)
+	}
+	if !s.Line0 {
+		p.Line = int64(s.ID)
+	}
 	p.Content = filler(s.ID, s.N, s.Fill)
 	for i := 0; i < s.Tags; i++ {
 		p.Tags.PutString("k"+strconv.Itoa(i), "v"+strconv.Itoa(s.ID+i))
 	}
+	if s.LongTag > 0 {
+		p.Tags.PutString(strings.Repeat("K", s.LongTag), strings.Repeat("v", 2*s.LongTag))
+	}
 	for i := 0; i < s.Fields; i++ {
 		p.Fields.PutLong("f"+strconv.Itoa(i), int64(s.ID*10+i))
+	}
+	if s.NilFields {
+		p.Fields = nil
 	}
 	return p
 }
@@ -67,9 +84,17 @@ type Rec struct {
 	Enc  []byte
 }
 
+// NewRec builds the record and its reference encoding.  A nil Fields map encodes exactly like an
+// empty one ("no fields"), so the reference bytes are taken from that twin: they do not depend on
+// how the encoder treats the nil.
 func NewRec(s RecSpec) *Rec {
 	p := s.Build()
-	return &Rec{Spec: s, P: p, Enc: pack.ToBytesPack(p)}
+	twin := s
+	if s.NilFields {
+		twin.NilFields = false
+		twin.Fields = 0
+	}
+	return &Rec{Spec: s, P: p, Enc: pack.ToBytesPack(twin.Build())}
 }
 
 // longEnc: encodings longer than this are represented to the model by their length only
@@ -137,6 +162,32 @@ type Case struct {
 	// FailedCb: install RequestQueue.Failed (the sender itself never does; a queue without the
 	// callback must refuse on overflow all the same)
 	FailedCb bool `json:"failed_cb,omitempty"`
+	// Fault: which hand-overs the client answers with an error (it records them all the same):
+	//   ""  none | "first" | "all" | "every:<k>" (k-th, 2k-th, …) | "random:<pct>:<salt>"
+	Fault string `json:"fault,omitempty"`
+}
+
+// faultAt: does the client report an error for its n-th hand-over (n from 0)?
+func faultAt(spec string, n int) bool {
+	f := strings.Split(spec, ":")
+	switch f[0] {
+	case "first":
+		return n == 0
+	case "all":
+		return true
+	case "every":
+		k, _ := strconv.Atoi(f[1])
+		return k > 0 && (n+1)%k == 0
+	case "random":
+		pct, _ := strconv.Atoi(f[1])
+		salt, _ := strconv.Atoi(f[2])
+		x := uint64(n+1)*0x9E3779B97F4A7C15 ^ uint64(salt)*0xBF58476D1CE4E5B9
+		x ^= x >> 29
+		x *= 0x94D049BB133111EB
+		x ^= x >> 32
+		return int(x%100) < pct
+	}
+	return false
 }
 
 func (c *Case) driverLine(recs map[int]*Rec) string {
@@ -185,10 +236,13 @@ func (c *Case) canon() string {
 	if c.FailedCb {
 		sb.WriteString("cb ")
 	}
+	if c.Fault != "" {
+		sb.WriteString("fault=" + c.Fault + " ")
+	}
 	for _, o := range c.Ops {
 		switch o.K {
 		case "add", "append":
-			fmt.Fprintf(&sb, "%s(%d@%d/%d);", o.K[:2], o.R.ID, o.R.Time, o.R.N)
+			fmt.Fprintf(&sb, "%s(%d@%d/%d%s);", o.K[:2], o.R.ID, o.R.Time, o.R.N, o.R.flags())
 		case "direct":
 			sb.WriteString("d(")
 			for _, r := range o.Rs {
@@ -233,4 +287,21 @@ func (c *Case) allSpecs() []RecSpec {
 		}
 	}
 	return out
+}
+
+func (s RecSpec) flags() string {
+	f := ""
+	if s.NilFields {
+		f += "F"
+	}
+	if s.NoCat {
+		f += "C"
+	}
+	if s.Line0 {
+		f += "L"
+	}
+	if s.LongTag > 0 {
+		f += "T" + strconv.Itoa(s.LongTag)
+	}
+	return f
 }
